@@ -34,28 +34,37 @@ class RenderDriver(Driver):
 
     _boolmon = False
 
-    def engine_fault(self, doc, out=None, ndigits=3):
+    def engine_fault(self, doc, out=None, ndigits=None):
         """Re-run the conversion with the C13 pathop monitor attached: if a boolean operation
         made while converting this very document is wrong and the same wrong answer is
         reproduced by a direct skia-pathops call from the harness, the mismatch is the engine's."""
-        from picomon.monitors import boolmon
+        from picomon.monitors import boolmon, paintmon
 
         if not RenderDriver._boolmon:
             boolmon.STATE["judge"] = False
             boolmon.install()
+            if not getattr(paintmon, "INSTALLED", False):
+                paintmon.STATE["judge"] = False
+                paintmon.install(empty_subpaths=False)
             RenderDriver._boolmon = True
         saved = events.drain()
+        pm_judge, pm_seen = paintmon.STATE["judge"], paintmon.STATE["seen"]
+        paintmon.STATE["judge"], paintmon.STATE["seen"] = True, None
         boolmon.STATE["judge"] = True
+        boolmon.STATE["extra_points"] = [self._cur_point] if getattr(self, "_cur_point", None) else None
         boolmon.STATE["n"] = 0
         boolmon.STATE["cap"] = 400
         try:
             conv.convert(doc, ndigits=ndigits)
         finally:
             boolmon.STATE["judge"] = False
+            boolmon.STATE["extra_points"] = None
+            paintmon.STATE["judge"], paintmon.STATE["seen"] = pm_judge, pm_seen
         evs = events.drain()
         events.LOG.extend(saved)
-        if any(ev.get("mech") == "skia-engine-wrong-result" for ev in evs):
-            return "skia-engine-wrong-result"
+        for mech in ("skia-engine-wrong-result", "skia-simplify-empties-painted-outline"):
+            if any(ev.get("mech") == mech for ev in evs):
+                return mech
         return None
 
     def is_nontrivial(self, st, feats, meta):
@@ -63,6 +72,7 @@ class RenderDriver(Driver):
 
     def check_doc(self, doc, res, rng, feats=None, meta=None, ndigits=3):
         res["evals"] += 1
+        conv.CUR_NDIGITS = ndigits
         status, out = conv.convert(doc, ndigits=ndigits)
         if status == "exc":
             bump(res["counters"], "convert_exception")
@@ -102,7 +112,9 @@ class RenderDriver(Driver):
         bump(res["counters"], "points_nonempty", st["nonempty"])
         if st["mismatch"]:
             p, a, b = st["mismatch"]
+            self._cur_point = p
             mech = self.classify(doc, out, st["mismatch"], meta)
+            self._cur_point = None
             res["viol"].append(dict(
                 rule="render_mismatch", sig="render_mismatch" + (f":{mech}" if mech else ""), mech=mech,
                 msg=f"at {p}: source renders {a}, converted output renders {b}\nSOURCE: {doc}\nOUTPUT: {out}",
@@ -120,6 +132,11 @@ class RenderDriver(Driver):
             for f, v in feats.items():
                 bump(res["features"], f, v)
             r = self.check_doc(doc, res, rng, feats, meta, ndigits=rng.choice(self.ndigits_choices))
+            if r:
+                # the same feature counts, restricted to documents that converted and were judged:
+                # a feature whose documents all fail to convert leaves its floor unmet (inconclusive)
+                for f, v in feats.items():
+                    bump(res["features"], "judged." + f, v)
             if r and res["sample"] is None and r[0]["nonempty"] > 20:
                 res["sample"] = {"document": doc[:1500], "points_kept": r[0]["kept"]}
         for ev in events.drain():
